@@ -330,6 +330,16 @@ func (c C07Case) emit1() c07Obs {
 		o.OwnKeys = append(o.OwnKeys, slog.VerifViewOf(e).AttrKeys)
 	}
 	e.SetLevel(slog.AlwaysLevel)
+	// the ancestors' own levels are stricter than the record in two cases out of three (Error, Off): what an
+	// ancestor contributes does not depend on what IT would admit
+	for i := 0; i+1 < len(ents); i++ {
+		switch (len(c.Msg) + i + len(c.Chain)) % 3 {
+		case 0:
+			ents[i].SetLevel(slog.ErrorLevel)
+		case 1:
+			ents[i].SetLevel(slog.OffLevel)
+		}
+	}
 	switch c.Mode {
 	case "json":
 		e.SetJSONMode(true)
